@@ -165,7 +165,7 @@ theorem wants_pid {cx : Ctx} {t : TId} {p pt : Nat} (h : wants cx t p pt = true)
 
 /-- the configurations for which the protocol is exactly-once: `makeFollows` after fix
     C12-fix-01, or followers with at most one table (where the code as found computes the same) -/
-def Good (cx : Ctx) : Prop := cx.fixedEarliest = true ∨ cx.tables.length ≤ 1
+def Good (cx : Ctx) : Prop := (cx.fixedEarliest = true ∨ cx.tables.length ≤ 1) ∧ cx.recoverMax = true
 
 theorem earliestOf_le_bound {cx : Ctx} (off : TId → Nat) {b : Nat} (h : ∀ t, off t ≤ b) :
     earliestOf cx off ≤ b := by
@@ -184,7 +184,7 @@ theorem earliestOf_le_bound {cx : Ctx} (off : TId → Nat) {b : Nat} (h : ∀ t,
 theorem earliestOf_le {cx : Ctx} (hg : Good cx) (off : TId → Nat) {t : TId} (ht : t ∈ cx.tables) :
     earliestOf cx off ≤ off t := by
   unfold earliestOf
-  rcases hg with hf | hl
+  rcases hg.1 with hf | hl
   · simp only [hf, if_true]
     exact minList_le (List.mem_map.mpr ⟨t, ht, rfl⟩)
   · by_cases hf : cx.fixedEarliest = true
@@ -231,6 +231,18 @@ structure Inv (cx : Ctx) (s : State) : Prop where
   memTop : ∀ f t l, s.memOff f t l ≤ top (s.wal l)
   diskTop : ∀ f t l, s.diskOff f t l ≤ top (s.wal l)
   snapTop : ∀ f t l, s.snapOff f t l ≤ top (s.wal l)
+  -- the `offset` file: never ahead of the WAL; where it is ahead of the filestore's header, the
+  -- filestore's data is still exact for it (it was written over an EMPTY memstore: only skipped
+  -- entries lie between the two)
+  offTop : ∀ f t l, s.offFile f t l ≤ top (s.wal l)
+  snapOffTop : ∀ f t l, s.snapOffFile f t l ≤ top (s.wal l)
+  offExact : ∀ f t l, s.offFile f t l ≤ s.diskOff f t l ∨
+    Exact cx (s.wal l) t f (s.offFile f t l) (s.diskApps f t l)
+  snapOffExact : ∀ f t l, s.snapOffFile f t l ≤ s.snapOff f t l ∨
+    Exact cx (s.wal l) t f (s.snapOffFile f t l) (s.snapApps f t l)
+  dirtyInv : ∀ f t, s.fup f = true → s.dirty f t = false → ∀ l, s.memApps f t l = s.diskApps f t l
+  diskLeMem : ∀ f t l, s.fup f = true → s.diskOff f t l ≤ s.memOff f t l
+  offLeMem : ∀ f t l, s.fup f = true → s.offFile f t l ≤ s.memOff f t l
   priorTop : ∀ f t l, s.prior f t l ≤ top (s.wal l)
   -- follower memory (meaningful while the follower runs)
   memLePrior : ∀ f t l, s.fup f = true → s.memOff f t l ≤ s.prior f t l
@@ -270,6 +282,19 @@ structure Inv (cx : Ctx) (s : State) : Prop where
   inflDone : ∀ f l o rem, s.inflight f l = some (o, rem) → ∀ t ∈ cx.tables, t ∉ rem → o ≤ s.prior f t l
   inflGap : ∀ f l o rem t, s.inflight f l = some (o, rem) → t ∈ rem → ∀ e ∈ s.wal l,
     wants cx t (cx.part f) e.pt = true → s.prior f t l < e.off → e.off < o → False
+
+/-- what `openRowStore` recovers (data of the newest filestore, per-source maximum of the two
+    offset records) is exact: the recovered offset covers every entry reflected in the recovered
+    data and nothing the table wants at or below it is missing -/
+theorem Inv.recExact {cx : Ctx} {s : State} (hi : Inv cx s) (f : FId) (t : TId) (l : LId) :
+    Exact cx (s.wal l) t f (max (s.offFile f t l) (s.diskOff f t l)) (s.diskApps f t l) := by
+  by_cases h : s.offFile f t l ≤ s.diskOff f t l
+  · rw [Nat.max_eq_right h]
+    exact hi.exDisk f t l
+  · rcases hi.offExact f t l with h' | h'
+    · exact absurd h' h
+    · rw [Nat.max_eq_left (by omega)]
+      exact h'
 
 theorem Exact.nil (cx : Ctx) (t : TId) (f : FId) : Exact cx [] t f 0 [] :=
   ⟨List.nodup_nil, by intro o; simp⟩
